@@ -10,7 +10,9 @@ Sm == INSTANCE Summary WITH IdLess <- LAMBDA a, b : Rank(a) < Rank(b), LossSales
 q1 == <<1, 0>>  q2 == <<2, 0>>  q3 == <<3, 0>>
 TemplatesV ==
   { TBuy("", q3, <<10, 0>>, Z), TBuy("", q1, <<10, 0>>, Z), TBuy("Spouse", q2, <<10, 0>>, Z),
-    TSell("", q1, <<7, 0>>, Z), TSell("", q1, <<12, 0>>, Z), TSell("Spouse", q1, <<7, 0>>, Z) }
+    TSell("", q1, <<7, 0>>, Z), TSell("", q1, <<12, 0>>, Z), TSell("Spouse", q1, <<7, 0>>, Z),
+    \* a loss of 3 of which the user declares 1 superficial, forced (the rule would deny all or nothing)
+    TSellSfl("", q1, <<7, 0>>, "-1!", <<-1, 0>>, TRUE) }
 GapsV == {0, 20, 31, 400}
 OpeningsV == {<<>>}
 SplitRatiosV == {<<2, 1>>}
